@@ -7,11 +7,13 @@ MANIFEST = dict(
          "(server/group tcp.go, http.go, tcpmux.go) at lock / channel-operation granularity: a join is two atomic steps (lookup-or-create "
          "under the controller lock; first-member or later-member branch under the group lock), a leave closes the hand-off channel, the "
          "real listener, releases the port/route and removes the group by name; close of a closed channel is an explicit Crashed state. "
-         "Proved for all request lists and all schedules: key/parameter checks with the code's specific errors, refused joins change "
-         "nothing, hand-off only to current members, http round-robin fairness, and — under the executable hypothesis 'no join is "
-         "between its two steps when a last leave runs' — no crash, endpoint iff the controller knows a group with members, recreation "
-         "after the last leave. Without that hypothesis the three clauses are REFUTED by concrete schedules (theorems ..._refuted), and "
-         "the same schedules are replayed on the real controllers through verifhook gates in child processes (finding F-C13).",
+         "Proved: key/parameter checks with the code's specific errors, refused joins change nothing (a refused FIRST join leaves an "
+         "empty group object in the table: F-C10c, proved and observed), hand-off only to a current member, http counter rotation; and "
+         "for ALL request lists and ALL schedules of the current code (join = one atomic step under the controller lock, after the "
+         "repair of F-C13): no crash, endpoint open iff the controller's table holds a group with members for it, detached objects "
+         "are dead, members = successful joins that have not left, the group can be recreated at once after its last leave. The old "
+         "two-step join is kept as regression-witness theorems (crash for tcp/tcpmux, leaked route for http) and the same schedules "
+         "are attempted on the real controllers through verifhook gates in child processes on every run.",
     note="Trusted: Coq kernel+VM; harness transcription; gates at the two model-step boundaries. ports.Manager and vhost.Routers are "
          "modelled only as far as the groups use them (used set, allowed range, oracle for the port-0 choice, OS probe and net.Listen). "
          "The select between closeCh and acceptCh in TCPGroupListener.Accept is modelled as 'a closed listener never receives' (residue). "
@@ -31,16 +33,19 @@ def recipe(c: Check):
     ctr = c.cov.get("coq_counters", {}).get("groups", {})
     if st and ctr:
         # branches the property names must have been reached
-        for name in ("NDELIVERED", "NREFUSEDJOIN", "NOVERLAP", "NSHELL"):
+        for name in ("NDELIVERED", "NREFUSEDJOIN", "NSHELL"):
             if ctr.get(name, 0) <= 0:
                 c.broken.append(dict(kind="coverage", name="counter %s is 0: a branch the property names was never reached" % name,
                                      detail=str(ctr)))
-        # the partial theorems say these cannot happen; seeing one means model and proofs have drifted apart
-        for name in ("NCRASHNOOVERLAP", "NBADNOOVERLAP"):
+        # the theorems say the current model never shows these; seeing one means model and proofs have drifted apart
+        for name in ("NCRASH", "NLOST", "NORPHAN"):
             if ctr.get(name, 0) != 0:
                 c.failures.append(dict(key="C13:monitor:%s" % name.lower(), driver="groups",
-                                       what="a crash / orphan endpoint / lost connection on a schedule in which no join overlaps a last leave",
+                                       what="the model itself shows a crash / orphan endpoint / lost connection on an executed schedule",
                                        case=str(ctr)))
+        d = st.get("distribution", {})
+        if sum(v for k, v in d.items() if k.startswith("overlap-attempted:")) <= 0:
+            c.broken.append(dict(kind="coverage", name="no join/last-leave overlap was attempted through the gates", detail=str(d)))
     return c.finish(
         rule="groups driver: for each of tcp/http/tcpmux, real exported controllers (group.NewTCPGroupCtl with a real ports.Manager on "
              "127.0.13.1:21300-21349, group.NewHTTPGroupController with real vhost.Routers + HTTPReverseProxy route configs, "
